@@ -307,22 +307,17 @@ class PairingToZ1d:
         return projection_to_z(x)
 
     def _projection_with_switch_to_right(self, x: int) -> int:
-        res = projection_to_z(x)
-        if self._switch or res < self.left:
-            self._switch = True
-            self._kk += 1
-            val = -self.left + self._kk + 1
-            return val
-        return res
+        # the states 1, -1, 2, -2, ..., -|left| alternate, the remaining ones are all on the right-hand side;
+        # computed from x alone so that the result does not depend on the order of the calls
+        if x > -2 * self.left:
+            return x + self.left
+        return projection_to_z(x)
 
     def _projection_with_switch_to_left(self, x: int) -> int:
-        res = projection_to_z(x)
-        if self._switch or res > self.right:
-            self._switch = True
-            self._kk += 1
-            val = -self.right - self._kk
-            return val
-        return res
+        # the states 1, -1, 2, -2, ..., right, -right alternate, the remaining ones are all on the left-hand side
+        if x > 2 * self.right:
+            return self.right - x
+        return projection_to_z(x)
 
 
 class Boundary:
